@@ -432,9 +432,19 @@ inline std::string exec(World& w, const Op& o, Kinds& ks) {
   } else if (o.op == "shrink") {
     w.doc(o.ti).shrinkToFit();
   } else if (o.op == "assign") {
-    w.doc(o.ti) = w.doc(o.si);
+    if (o.ti != o.si && ks.next(2) == 0) {  // through the copy constructor (which takes the source's allocator)
+      JsonDocument tmp(w.doc(o.si));
+      w.doc(o.ti) = std::move(tmp);
+    } else {
+      w.doc(o.ti) = w.doc(o.si);
+    }
   } else if (o.op == "move") {
-    w.doc(o.ti) = std::move(w.doc(o.si));
+    if (o.ti != o.si && ks.next(2) == 0) {  // through the move constructor
+      JsonDocument tmp(std::move(w.doc(o.si)));
+      w.doc(o.ti) = std::move(tmp);
+    } else {
+      w.doc(o.ti) = std::move(w.doc(o.si));
+    }
   } else if (o.op == "swap") {
     swap(w.doc(o.ti), w.doc(o.si));
   } else if (o.op == "deser") {
